@@ -2,6 +2,55 @@
 From DF Require Import Prelude Constants_gen Region Mesh Select QLemmas ListLemmas C01_axis.
 Open Scope Q_scope.
 
+(* ---------- small arithmetic helpers ---------- *)
+Lemma Qfloor_shift (x : Q) (z : Z) : Qfloor (x - inject_Z z) = (Qfloor x - z)%Z.
+Proof.
+  destruct (Qfloor_bounds x) as [A B].
+  apply Qfloor_unique.
+  - rewrite inject_Z_minus. lra.
+  - rewrite inject_Z_plus, inject_Z_minus. change (inject_Z 1) with 1. lra.
+Qed.
+
+Lemma Qceiling_bounds (x : Q) : inject_Z (Qceiling x) - 1 < x /\ x <= inject_Z (Qceiling x).
+Proof.
+  split; [|apply Qle_ceiling].
+  pose proof (Qceiling_lt x) as H. rewrite inject_Z_minus in H. exact H.
+Qed.
+
+Lemma round_of_int (x : Q) (z : Z) : x == inject_Z z -> Qround_half_even x = z.
+Proof.
+  intro E. unfold Qround_half_even.
+  assert (F : Qfloor x = z) by (rewrite E; apply Qfloor_Z).
+  rewrite F.
+  assert (R : x - inject_Z z == 0) by lra.
+  destruct (Qcompare_spec (x - inject_Z z) (1 # 2)) as [C | C | C]; try lra. reflexivity.
+Qed.
+
+Lemma injZ_le a b : (a <= b)%Z -> inject_Z a <= inject_Z b.
+Proof. intro H. rewrite <- Zle_Qle. exact H. Qed.
+Lemma injZ_lt a b : (a < b)%Z -> inject_Z a < inject_Z b.
+Proof. intro H. rewrite <- Zlt_Qlt. exact H. Qed.
+Lemma injZ_le_inv a b : inject_Z a <= inject_Z b -> (a <= b)%Z.
+Proof. intro H. rewrite Zle_Qle. exact H. Qed.
+Lemma injZ_lt_inv a b : inject_Z a < inject_Z b -> (a < b)%Z.
+Proof. intro H. rewrite Zlt_Qlt. exact H. Qed.
+
+Lemma mul_le_c c a b : 0 < c -> a <= b -> a * c <= b * c.
+Proof. intros Hc H. apply Qmult_le_compat_r; lra. Qed.
+Lemma mul_lt_c c a b : 0 < c -> a < b -> a * c < b * c.
+Proof. intros Hc H. apply Qmult_lt_compat_r; lra. Qed.
+Lemma mul_le_c_inv c a b : 0 < c -> a * c <= b * c -> a <= b.
+Proof.
+  intros Hc H. destruct (Qlt_le_dec b a) as [L | L]; [|exact L].
+  pose proof (mul_lt_c c b a Hc L). lra.
+Qed.
+Lemma mul_lt_c_inv c a b : 0 < c -> a * c < b * c -> a < b.
+Proof.
+  intros Hc H. destruct (Qlt_le_dec a b) as [L | L]; [exact L|].
+  pose proof (mul_le_c c b a Hc L). lra.
+Qed.
+
+(* ---------- padding maps ---------- *)
 Lemma pad_src_interior (md : pmode) (k j : Z) :
   (0 <= j < k)%Z -> pad_src md k j = Some j.
 Proof.
@@ -10,3 +59,365 @@ Proof.
   replace (j <? k)%Z with true by (symmetry; apply Z.ltb_lt; lia).
   reflexivity.
 Qed.
+
+(* every mode reads source cells only *)
+Lemma pad_src_range (md : pmode) (k j s : Z) :
+  (0 < k)%Z -> pad_src md k j = Some s -> (0 <= s < k)%Z.
+Proof.
+  intros Hk. unfold pad_src, in_range1.
+  destruct ((0 <=? j)%Z && (j <? k)%Z) eqn:E.
+  - intro H; inversion H; subst. apply andb_true_iff in E. destruct E as [A B].
+    apply Z.leb_le in A. apply Z.ltb_lt in B. lia.
+  - destruct md; intro H.
+    + discriminate.
+    + inversion H. unfold Qclip. lia.
+    + inversion H. apply Z.mod_pos_bound. lia.
+    + inversion H. pose proof (Z.mod_pos_bound j (2 * k)) as M.
+      destruct (j mod (2 * k) <? k)%Z eqn:L; [apply Z.ltb_lt in L | apply Z.ltb_ge in L]; lia.
+    + destruct (k =? 1)%Z eqn:K1; [inversion H; lia|]. apply Z.eqb_neq in K1.
+      inversion H. pose proof (Z.mod_pos_bound j (2 * k - 2)) as M.
+      destruct (j mod (2 * k - 2) <? k)%Z eqn:L; [apply Z.ltb_lt in L | apply Z.ltb_ge in L]; lia.
+Qed.
+
+(* constant mode fills exactly the cells outside the source *)
+Lemma pad_src_constant (k j : Z) : pad_src PConstant k j = None <-> ~ (0 <= j < k)%Z.
+Proof.
+  unfold pad_src, in_range1. destruct ((0 <=? j)%Z && (j <? k)%Z) eqn:E.
+  - apply andb_true_iff in E. destruct E as [A B]. apply Z.leb_le in A. apply Z.ltb_lt in B.
+    split; [discriminate | lia].
+  - split; [|reflexivity]. intros _ [A B].
+    apply Z.leb_le in A. apply Z.ltb_lt in B. rewrite A, B in E. discriminate.
+Qed.
+
+(* what the four copying modes mean: nearest edge cell / periodic / mirror images *)
+Lemma pad_src_edge (k j : Z) : (0 < k)%Z ->
+  pad_src PEdge k j = Some (if (j <? 0)%Z then 0%Z else if (k <=? j)%Z then (k - 1)%Z else j).
+Proof.
+  intro Hk. unfold pad_src, in_range1, Qclip.
+  destruct (0 <=? j)%Z eqn:A; destruct (j <? k)%Z eqn:B; simpl;
+    destruct (j <? 0)%Z eqn:C; destruct (k <=? j)%Z eqn:D;
+    try apply Z.leb_le in A; try apply Z.leb_gt in A; try apply Z.ltb_lt in B; try apply Z.ltb_ge in B;
+    try apply Z.ltb_lt in C; try apply Z.ltb_ge in C; try apply Z.leb_le in D; try apply Z.leb_gt in D;
+    f_equal; lia.
+Qed.
+
+Lemma pad_src_wrap (k j : Z) : (0 < k)%Z -> pad_src PWrap k j = Some (j mod k)%Z.
+Proof.
+  intro Hk. unfold pad_src, in_range1.
+  destruct ((0 <=? j)%Z && (j <? k)%Z) eqn:E; [|reflexivity].
+  apply andb_true_iff in E. destruct E as [A B]. apply Z.leb_le in A. apply Z.ltb_lt in B.
+  rewrite Z.mod_small by lia. reflexivity.
+Qed.
+
+(* ---------- one axis of a mesh ---------- *)
+Section Axis.
+Variables (lo hi : Q) (k : Z).
+Hypothesis Hlh : lo < hi.
+Hypothesis Hk : (0 < k)%Z.
+Let c := cell_of lo hi k.
+
+Let Hc : 0 < c := cell_pos lo hi k Hlh Hk.
+Let Hn : inject_Z k * c == hi - lo := cell_times_n lo hi k Hlh Hk.
+
+(* cell lookup for every accepted coordinate lo <= x <= hi: in range, the closed cell contains x *)
+Lemma cell_of_coord x : lo <= x -> x <= hi ->
+  let i := p2i1 lo c k x in
+  (0 <= i < k)%Z /\ lo + inject_Z i * c <= x /\ x <= lo + (inject_Z i + 1) * c /\
+  (x < hi -> x < lo + (inject_Z i + 1) * c).
+Proof.
+  intros H0 H1 i. split; [apply p2i1_range; assumption|].
+  destruct (Qlt_le_dec x hi) as [L | L].
+  - destruct (p2i1_cell lo hi k Hlh Hk x H0 L) as [A B]. fold c in A, B. fold i in A, B.
+    repeat split; try lra. intros _. exact B.
+  - assert (E : i = (k - 1)%Z) by (apply p2i1_upper; assumption).
+    rewrite E. rewrite inject_Z_minus. change (inject_Z 1) with 1.
+    repeat split; try lra.
+Qed.
+
+Lemma p2i1_mono x y : lo <= x -> x <= y -> y <= hi -> (p2i1 lo c k x <= p2i1 lo c k y)%Z.
+Proof.
+  intros H0 H1 H2.
+  assert (F : (Qfloor ((x - lo) / c) <= Qfloor ((y - lo) / c))%Z).
+  { apply Qfloor_resp_le. apply Qle_shift_div_l; [exact Hc|].
+    assert (E : (x - lo) / c * c == x - lo) by (field; lra). lra. }
+  unfold p2i1, Qclip. lia.
+Qed.
+
+(* lower face of the cell of centre i, upper face likewise: the half-cell steps of Mesh.sel *)
+Lemma centre_minus_half i : i2p1 lo c i - c / 2 == lo + inject_Z i * c.
+Proof. unfold i2p1, half_cell. field. Qed.
+Lemma centre_plus_half i : i2p1 lo c i + c / 2 == lo + (inject_Z i + 1) * c.
+Proof. unfold i2p1, half_cell. field. Qed.
+
+(* ---- a lattice block [off, off+cnt) of the axis, as a mesh axis of its own ---- *)
+Section Block.
+Variables (off cnt : Z) (lo' hi' : Q).
+Hypothesis Hcnt : (0 < cnt)%Z.
+Hypothesis Hlo' : lo' == lo + inject_Z off * c.
+Hypothesis Hhi' : hi' == lo + inject_Z (off + cnt) * c.
+Let c' := cell_of lo' hi' cnt.
+
+Lemma block_order : lo' < hi'.
+Proof.
+  rewrite Hlo', Hhi', inject_Z_plus.
+  assert (0 < inject_Z cnt * c) by (apply Qmult_lt_0_compat; [apply inject_Z_pos; exact Hcnt | exact Hc]).
+  lra.
+Qed.
+
+(* cell size unchanged *)
+Lemma block_cell : c' == c.
+Proof.
+  unfold c', cell_of. rewrite Hlo', Hhi', inject_Z_plus.
+  pose proof (inject_Z_pos cnt Hcnt). field. lra.
+Qed.
+
+(* Mesh(region=..., cell=c) recovers the count *)
+Lemma block_count : Qround_half_even ((hi' - lo') / c) = cnt.
+Proof.
+  apply round_of_int. rewrite Hlo', Hhi', inject_Z_plus. field. lra.
+Qed.
+
+(* no 0.1 % remainder: the region is a whole number of cells *)
+Lemma block_divisible tol : 0 <= tol -> bad_rem tol c (hi' - lo') = false.
+Proof.
+  intro Ht. unfold bad_rem, Qremainder.
+  assert (E : (hi' - lo') / c == inject_Z cnt).
+  { rewrite Hlo', Hhi', inject_Z_plus. field. lra. }
+  assert (R : hi' - lo' - inject_Z (Qfloor ((hi' - lo') / c)) * c == 0).
+  { rewrite E, Qfloor_Z. rewrite Hlo', Hhi', inject_Z_plus. ring. }
+  apply andb_false_iff. left. apply Qltb_false. lra.
+Qed.
+
+(* THE point-wise core: a point of the half-open block lies in block cell j  iff  it lies in
+   source cell j + off  (when the block is inside the source) *)
+Lemma block_index_shift q :
+  (0 <= off)%Z -> (off + cnt <= k)%Z -> lo' <= q -> q < hi' ->
+  p2i1 lo c k q = (p2i1 lo' c' cnt q + off)%Z.
+Proof.
+  intros Ho Hoc Hq0 Hq1.
+  assert (E : (q - lo') / c' == (q - lo) / c - inject_Z off).
+  { rewrite block_cell, Hlo'. field. lra. }
+  unfold p2i1. rewrite E, Qfloor_shift.
+  set (f := Qfloor ((q - lo) / c)).
+  assert (X : (q - lo) / c * c == q - lo) by (field; lra).
+  destruct (Qfloor_bounds ((q - lo) / c)) as [F0 F1]. fold f in F0, F1.
+  assert (A : (off <= f)%Z).
+  { apply Z.lt_succ_r. apply injZ_lt_inv. unfold Z.succ. rewrite inject_Z_plus. change (inject_Z 1) with 1.
+    apply (mul_lt_c_inv c); [exact Hc|].
+    assert (inject_Z off * c <= (q - lo) / c * c) by lra.
+    pose proof (mul_lt_c c _ _ Hc F1). lra. }
+  assert (B : (f < off + cnt)%Z).
+  { apply injZ_lt_inv. apply (mul_lt_c_inv c); [exact Hc|].
+    pose proof (mul_le_c c _ _ Hc F0). lra. }
+  unfold Qclip. lia.
+Qed.
+
+(* the same for a block that extends beyond the source (padding): inside the source the padded
+   mesh and the source agree, the padded index is the source index plus the pad width *)
+Lemma block_index_shift_pad q :
+  lo <= q -> q < hi -> (off <= 0)%Z -> (k <= off + cnt)%Z ->
+  p2i1 lo c k q = (p2i1 lo' c' cnt q + off)%Z.
+Proof.
+  intros Hq0 Hq1 Ho Hoc.
+  assert (E : (q - lo') / c' == (q - lo) / c - inject_Z off).
+  { rewrite block_cell, Hlo'. field. lra. }
+  unfold p2i1. rewrite E, Qfloor_shift.
+  set (f := Qfloor ((q - lo) / c)).
+  assert (X : (q - lo) / c * c == q - lo) by (field; lra).
+  destruct (Qfloor_bounds ((q - lo) / c)) as [F0 F1]. fold f in F0, F1.
+  assert (A : (0 <= f)%Z).
+  { apply Z.lt_succ_r. apply injZ_lt_inv. unfold Z.succ. rewrite inject_Z_plus. change (inject_Z 1) with 1.
+    apply (mul_lt_c_inv c); [exact Hc|]. pose proof (mul_lt_c c _ _ Hc F1). lra. }
+  assert (B : (f < k)%Z).
+  { apply injZ_lt_inv. apply (mul_lt_c_inv c); [exact Hc|].
+    pose proof (mul_le_c c _ _ Hc F0). lra. }
+  unfold Qclip. lia.
+Qed.
+
+(* cell centres of the block are cell centres of the source *)
+Lemma block_centres j : i2p1 lo' c' j == i2p1 lo c (j + off).
+Proof.
+  unfold i2p1. rewrite block_cell, Hlo', inject_Z_plus. ring.
+Qed.
+End Block.
+
+(* ---- range selection keeps exactly the cells idx(x1) .. idx(x2) ---- *)
+Lemma range_exact x1 x2 : lo <= x1 -> x1 <= x2 -> x2 <= hi ->
+  let i1 := p2i1 lo c k x1 in let i2 := p2i1 lo c k x2 in
+  let min_val := i2p1 lo c i1 - c / 2 in let max_val := i2p1 lo c i2 + c / 2 in
+  (0 <= i1)%Z /\ (i1 <= i2)%Z /\ (i2 < k)%Z /\
+  min_val == lo + inject_Z i1 * c /\ max_val == lo + inject_Z (i1 + (i2 - i1 + 1)) * c /\
+  min_val <= x1 /\ x2 <= max_val /\ lo <= min_val /\ max_val <= hi /\
+  Qround_half_even ((max_val - min_val) / c) = (i2 - i1 + 1)%Z /\
+  cell_of min_val max_val (i2 - i1 + 1) == c.
+Proof.
+  intros H0 H1 H2 i1 i2 min_val max_val.
+  destruct (cell_of_coord x1) as [[A0 A1] [A2 [A3 _]]]; try lra.
+  destruct (cell_of_coord x2) as [[B0 B1] [B2 [B3 _]]]; try lra.
+  fold i1 in A0, A1, A2, A3. fold i2 in B0, B1, B2, B3.
+  assert (M : (i1 <= i2)%Z) by (apply p2i1_mono; lra).
+  assert (E1 : min_val == lo + inject_Z i1 * c) by apply centre_minus_half.
+  assert (E2 : max_val == lo + inject_Z (i1 + (i2 - i1 + 1)) * c).
+  { unfold max_val. rewrite centre_plus_half. replace (i1 + (i2 - i1 + 1))%Z with (i2 + 1)%Z by lia.
+    rewrite inject_Z_plus. reflexivity. }
+  assert (P : (0 < i2 - i1 + 1)%Z) by lia.
+  repeat split; try assumption; try lia.
+  - lra.
+  - unfold max_val. rewrite centre_plus_half. exact B3.
+  - rewrite E1. pose proof (mul_le_c c 0 (inject_Z i1) Hc (injZ_le 0 i1 A0)). lra.
+  - rewrite E2. replace (i1 + (i2 - i1 + 1))%Z with (i2 + 1)%Z by lia.
+    pose proof (mul_le_c c _ _ Hc (injZ_le (i2 + 1) k ltac:(lia))). lra.
+  - apply (block_count i1 (i2 - i1 + 1) min_val max_val E1 E2).
+  - apply (block_cell i1 (i2 - i1 + 1) min_val max_val P E1 E2).
+Qed.
+
+(* ---- extraction by region: floor / ceil-1 give the smallest covering block ---- *)
+Lemma block_minimal x0 x1 : lo <= x0 -> x0 < x1 -> x1 <= hi ->
+  let a := p2i1 lo c k x0 in let b := upper_idx1 lo c x1 in
+  (0 <= a)%Z /\ (a <= b)%Z /\ (b < k)%Z /\
+  lo + inject_Z a * c <= x0 /\ x1 <= lo + (inject_Z b + 1) * c /\
+  forall a' b' : Z, lo + inject_Z a' * c <= x0 -> x1 <= lo + (inject_Z b' + 1) * c ->
+                    (a' <= a)%Z /\ (b <= b')%Z.
+Proof.
+  intros H0 H1 H2 a b.
+  assert (Hx0 : x0 < hi) by lra.
+  destruct (cell_of_coord x0) as [[A0 A1] [A2 [_ A3]]]; try lra. fold a in A0, A1, A2, A3.
+  specialize (A3 Hx0).
+  set (t := (x1 - lo) / c).
+  assert (X : t * c == x1 - lo) by (unfold t; field; lra).
+  destruct (Qceiling_bounds t) as [C0 C1].
+  assert (Eb : inject_Z b == inject_Z (Qceiling t) - 1).
+  { unfold b, upper_idx1. fold t. rewrite inject_Z_minus. reflexivity. }
+  assert (U : x1 <= lo + (inject_Z b + 1) * c).
+  { rewrite Eb. pose proof (mul_le_c c _ _ Hc C1). lra. }
+  assert (L : lo + inject_Z b * c < x1).
+  { rewrite Eb. pose proof (mul_lt_c c _ _ Hc C0). lra. }
+  assert (Bk : (b < k)%Z).
+  { apply injZ_lt_inv. apply (mul_lt_c_inv c); [exact Hc|]. lra. }
+  assert (AB : (a <= b)%Z).
+  { apply Z.lt_succ_r. apply injZ_lt_inv. unfold Z.succ. rewrite inject_Z_plus. change (inject_Z 1) with 1.
+    apply (mul_lt_c_inv c); [exact Hc|]. lra. }
+  repeat split; try assumption.
+  - apply Z.lt_succ_r. apply injZ_lt_inv. unfold Z.succ. rewrite inject_Z_plus. change (inject_Z 1) with 1.
+    apply (mul_lt_c_inv c); [exact Hc|]. lra.
+  - apply Z.lt_succ_r. apply injZ_lt_inv. unfold Z.succ. rewrite inject_Z_plus. change (inject_Z 1) with 1.
+    apply (mul_lt_c_inv c); [exact Hc|]. lra.
+Qed.
+
+(* corners handed to the Region constructor: centre of first cell - half, centre of last + half *)
+Lemma getitem_corners a b :
+  half_down (i2p1 lo c a) c == lo + inject_Z a * c /\
+  half_up (i2p1 lo c b) c == lo + inject_Z (a + (b - a + 1)) * c.
+Proof.
+  unfold half_down, half_up. rewrite centre_minus_half, centre_plus_half.
+  replace (a + (b - a + 1))%Z with (b + 1)%Z by lia. rewrite inject_Z_plus. split; reflexivity.
+Qed.
+
+(* ---- region2slices of a cell-aligned region selects exactly its cells ---- *)
+Lemma slices_aligned a b : (0 <= a)%Z -> (a <= b)%Z -> (b < k)%Z ->
+  p2i1 lo c k (half_up (lo + inject_Z a * c) c) = a /\
+  p2i1 lo c k (half_down (lo + inject_Z (b + 1) * c) c) = b.
+Proof.
+  intros H0 H1 H2.
+  assert (E1 : half_up (lo + inject_Z a * c) c == i2p1 lo c a).
+  { unfold half_up, i2p1, half_cell. field. }
+  assert (E2 : half_down (lo + inject_Z (b + 1) * c) c == i2p1 lo c b).
+  { unfold half_down, i2p1, half_cell. rewrite inject_Z_plus. change (inject_Z 1) with 1. field. }
+  assert (P : forall x y, x == y -> p2i1 lo c k x = p2i1 lo c k y).
+  { intros x y E. unfold p2i1. rewrite E. reflexivity. }
+  rewrite (P _ _ E1), (P _ _ E2).
+  split; apply (p2i1_i2p1 lo hi k Hlh Hk); lia.
+Qed.
+
+(* ---- padding: wl cells below, wh cells above ---- *)
+Lemma pad_axis (w : Z * Z) : (0 <= fst w)%Z -> (0 <= snd w)%Z ->
+  let lo' := pad_lo lo c w in let hi' := pad_hi hi c w in
+  lo' == lo + inject_Z (- fst w) * c /\
+  hi' == lo + inject_Z (- fst w + (k + fst w + snd w)) * c /\
+  Qround_half_even ((hi' - lo') / c) = (k + fst w + snd w)%Z /\
+  cell_of lo' hi' (k + fst w + snd w) == c.
+Proof.
+  intros H0 H1 lo' hi'.
+  assert (E1 : lo' == lo + inject_Z (- fst w) * c).
+  { unfold lo', pad_lo. rewrite inject_Z_opp. ring. }
+  assert (E2 : hi' == lo + inject_Z (- fst w + (k + fst w + snd w)) * c).
+  { unfold hi', pad_hi. replace (- fst w + (k + fst w + snd w))%Z with (k + snd w)%Z by lia.
+    rewrite inject_Z_plus. lra. }
+  assert (P : (0 < k + fst w + snd w)%Z) by lia.
+  repeat split; try assumption.
+  - apply (block_count (- fst w) (k + fst w + snd w) lo' hi' E1 E2).
+  - apply (block_cell (- fst w) (k + fst w + snd w) lo' hi' P E1 E2).
+Qed.
+
+(* ---- resampling: a nearest source centre is the centre of a cell that contains the point ---- *)
+Definition is_nearest (q : Q) (i : Z) : Prop :=
+  (0 <= i < k)%Z /\ forall i', (0 <= i' < k)%Z -> Qabs (i2p1 lo c i - q) <= Qabs (i2p1 lo c i' - q).
+
+Lemma nearest_contains q i : lo <= q -> q <= hi -> is_nearest q i ->
+  lo + inject_Z i * c <= q /\ q <= lo + (inject_Z i + 1) * c.
+Proof.
+  intros H0 H1 [[I0 I1] N].
+  assert (Ci : forall j, i2p1 lo c j == lo + (inject_Z j + (1 # 2)) * c) by (intro j; apply centre_formula).
+  split.
+  - destruct (Qlt_le_dec q (lo + inject_Z i * c)) as [L | L]; [exfalso | exact L].
+    assert (Ipos : (0 < i)%Z).
+    { apply injZ_lt_inv. apply (mul_lt_c_inv c); [exact Hc|]. change (inject_Z 0) with 0. lra. }
+    specialize (N (i - 1)%Z ltac:(lia)).
+    rewrite !Ci in N. rewrite inject_Z_minus in N. change (inject_Z 1) with 1 in N.
+    set (d := lo + (inject_Z i + (1 # 2)) * c - q) in *.
+    assert (D : c / 2 < d) by (unfold d; lra).
+    assert (Ed : lo + (inject_Z i - 1 + (1 # 2)) * c - q == d - c) by (unfold d; ring).
+    rewrite Ed in N.
+    assert (A1 : Qabs d == d) by (apply Qabs_pos; lra). rewrite A1 in N.
+    assert (A2 : Qabs (d - c) < d) by (apply Qabs_Qlt_condition; split; lra).
+    lra.
+  - destruct (Qlt_le_dec (lo + (inject_Z i + 1) * c) q) as [L | L]; [exfalso | exact L].
+    assert (Iup : (i + 1 < k)%Z).
+    { apply injZ_lt_inv. apply (mul_lt_c_inv c); [exact Hc|]. rewrite inject_Z_plus. change (inject_Z 1) with 1. lra. }
+    specialize (N (i + 1)%Z ltac:(lia)).
+    rewrite !Ci in N. rewrite inject_Z_plus in N. change (inject_Z 1) with 1 in N.
+    set (d := q - (lo + (inject_Z i + (1 # 2)) * c)) in *.
+    assert (D : c / 2 < d) by (unfold d; lra).
+    assert (E0 : lo + (inject_Z i + (1 # 2)) * c - q == - d) by (unfold d; ring).
+    assert (Ed : lo + (inject_Z i + 1 + (1 # 2)) * c - q == c - d) by (unfold d; ring).
+    rewrite E0, Ed in N.
+    assert (A1 : Qabs (- d) == d) by (rewrite Qabs_opp; apply Qabs_pos; lra). rewrite A1 in N.
+    assert (A2 : Qabs (c - d) < d) by (apply Qabs_Qlt_condition; split; lra).
+    lra.
+Qed.
+
+(* the cell a point belongs to is a nearest cell: the modelled pick is admissible *)
+Lemma pick_is_nearest q : lo <= q -> q <= hi -> is_nearest q (nearest_pick lo c k q).
+Proof.
+  intros H0 H1. unfold nearest_pick.
+  destruct (cell_of_coord q H0 H1) as [R [A [B _]]].
+  set (i := p2i1 lo c k q) in *.
+  split; [exact R|]. intros i' R'.
+  rewrite !centre_formula.
+  assert (Hd : Qabs (lo + (inject_Z i + (1 # 2)) * c - q) <= c / 2).
+  { apply Qabs_Qle_condition. split; lra. }
+  destruct (Z.lt_trichotomy i' i) as [L | [L | L]].
+  - assert (inject_Z i' + 1 <= inject_Z i).
+    { change 1 with (inject_Z 1). rewrite <- inject_Z_plus. apply injZ_le. lia. }
+    pose proof (mul_le_c c _ _ Hc H).
+    assert (G : c / 2 <= q - (lo + (inject_Z i' + (1 # 2)) * c)) by lra.
+    eapply Qle_trans; [exact Hd|]. eapply Qle_trans; [exact G|].
+    rewrite <- Qabs_opp. eapply Qle_trans; [|apply Qle_Qabs]. lra.
+  - subst i'. lra.
+  - assert (inject_Z i + 1 <= inject_Z i').
+    { change 1 with (inject_Z 1). rewrite <- inject_Z_plus. apply injZ_le. lia. }
+    pose proof (mul_le_c c _ _ Hc H).
+    assert (G : c / 2 <= lo + (inject_Z i' + (1 # 2)) * c - q) by lra.
+    eapply Qle_trans; [exact Hd|]. eapply Qle_trans; [exact G|]. apply Qle_Qabs.
+Qed.
+
+(* boolean form used by the checker *)
+Lemma nearestb_spec q i : nearestb lo c k q i = true <-> is_nearest q i.
+Proof.
+  unfold nearestb, is_nearest, in_range1, centre1.
+  rewrite andb_true_iff, andb_true_iff, Z.leb_le, Z.ltb_lt, forallb_forall.
+  split; intros [R N]; split; try exact R.
+  - intros i' R'. apply Qle_bool_iff. apply N. apply In_ziota. rewrite Z2Nat.id by lia. lia.
+  - intros i' Hin. apply Qle_bool_iff. apply N. apply In_ziota in Hin. rewrite Z2Nat.id in Hin by lia. lia.
+Qed.
+End Axis.
